@@ -561,6 +561,7 @@ const preludeAxioms = `(assert (forall ((s Str)) (! (>= (strlen s) 0) :pattern (
 (assert (forall ((a Str) (b Str)) (! (or (str_lt a b) (str_lt b a) (= a b)) :pattern ((str_lt a b)))))
 (assert (forall ((a Str) (b Str) (c Str)) (! (=> (and (str_lt a b) (str_lt b c)) (str_lt a c)) :pattern ((str_lt a b) (str_lt b c)))))
 (assert (forall ((e Iface)) (! (errors_is e e) :pattern ((errors_is e e)))))
+(assert (forall ((t Iface)) (! (=> (not (= t inil)) (not (errors_is inil t))) :pattern ((errors_is inil t)))))
 `
 
 // ---- cone-of-influence slicing ----
